@@ -16,7 +16,8 @@ Formulas == <<
   <<"Bin", ",", AsgT("$a", N1), <<"Call", IdT("fail"), <<N1>>, FALSE>>>>,   \* $a = 1, fail(1)
   <<"Sel", <<"Lit", "Kw", "this">>, "$a", FALSE>>,                  \* this.$a
   IdT("k"),                                                         \* k   (an auxiliary key)
-  AsgT("x", N1)                                                     \* x = 1   (error, no effect)
+  AsgT("x", N1),                                                    \* x = 1   (error, no effect)
+  AsgT("$b", <<"Bin", "+", IdT("$a"), IdT("x")>>)                   \* $b = $a + x
 >>
 
 HeapDesc == [ m1 |-> [x |-> <<"int", 1>>, fail |-> <<"func", "fail">>],
